@@ -1647,7 +1647,7 @@ static void emit_text(Obj *prog) {
 
       // va_elem
       println("  movl $%d, %d(%%rbp)", gp * 8, off);          // gp_offset
-      println("  movl $%d, %d(%%rbp)", fp * 8 + 48, off + 4); // fp_offset
+      println("  movl $%d, %d(%%rbp)", fp * 16 + 48, off + 4); // fp_offset
       println("  movq %%rbp, %d(%%rbp)", off + 8);            // overflow_arg_area
       println("  addq $%d, %d(%%rbp)", overflow, off + 8);
       println("  movq %%rbp, %d(%%rbp)", off + 16);           // reg_save_area
@@ -1660,14 +1660,9 @@ static void emit_text(Obj *prog) {
       println("  movq %%rcx, %d(%%rbp)", off + 48);
       println("  movq %%r8, %d(%%rbp)", off + 56);
       println("  movq %%r9, %d(%%rbp)", off + 64);
-      println("  movsd %%xmm0, %d(%%rbp)", off + 72);
-      println("  movsd %%xmm1, %d(%%rbp)", off + 80);
-      println("  movsd %%xmm2, %d(%%rbp)", off + 88);
-      println("  movsd %%xmm3, %d(%%rbp)", off + 96);
-      println("  movsd %%xmm4, %d(%%rbp)", off + 104);
-      println("  movsd %%xmm5, %d(%%rbp)", off + 112);
-      println("  movsd %%xmm6, %d(%%rbp)", off + 120);
-      println("  movsd %%xmm7, %d(%%rbp)", off + 128);
+      // The XMM slots are 16 bytes apart (psABI figure 3.33).
+      for (int i = 0; i < 8; i++)
+        println("  movsd %%xmm%d, %d(%%rbp)", i, off + 72 + i * 16);
     }
 
     // Save passed-by-register arguments to the stack
